@@ -2195,6 +2195,8 @@ class Series(ContainerOperand):
         iloc_key = self._index._loc_to_iloc(key)
         if not isinstance(iloc_key, INT_TYPES):
             raise RuntimeError(f'Unsupported key type: {key}')
+        if iloc_key < 0: # a negative position (as with ILoc[-1]) counts from the end
+            iloc_key += len(self._index)
         return self._insert(iloc_key, container)
 
     @doc_inject(selector='insert')
@@ -2215,6 +2217,8 @@ class Series(ContainerOperand):
         iloc_key = self._index._loc_to_iloc(key)
         if not isinstance(iloc_key, INT_TYPES):
             raise RuntimeError(f'Unsupported key type: {key}')
+        if iloc_key < 0: # a negative position (as with ILoc[-1]) counts from the end
+            iloc_key += len(self._index)
         return self._insert(iloc_key + 1, container)
 
     #---------------------------------------------------------------------------
